@@ -56,8 +56,25 @@ impl Out {
 
 /// Drive one session; its inputs are parked in `<out>.cur` while it runs, so that the orchestrator
 /// can tell which session killed the recorder (the file is removed when the recorder finishes).
-fn run_session(inputs: &[Value], out: &mut Out, cur: &str) {
-    std::fs::write(cur, serde_json::to_vec(inputs).unwrap()).unwrap();
+struct Park {
+    f: std::fs::File,
+}
+
+impl Park {
+    fn create(path: &str) -> Park {
+        Park { f: std::fs::File::create(path).expect("create .cur") }
+    }
+    fn set(&mut self, inputs: &[Value]) {
+        use std::io::Seek;
+        let bytes = serde_json::to_vec(inputs).unwrap();
+        self.f.seek(std::io::SeekFrom::Start(0)).unwrap();
+        self.f.write_all(&bytes).unwrap();
+        self.f.set_len(bytes.len() as u64).unwrap();
+    }
+}
+
+fn run_session(inputs: &[Value], out: &mut Out, park: &mut Park) {
+    park.set(inputs);
     drive_session(inputs, out);
     out.flush();
 }
@@ -491,6 +508,7 @@ fn main() {
     let mode = fv::arg_str("mode", "random");
     let path = fv::arg_str("out", "/dev/stdout");
     let cur_path = format!("{}.cur", path);
+    let mut park = Park::create(&cur_path);
     let mut out = Out::create(&path, mode == "replay");
     match mode.as_str() {
         "random" => {
@@ -499,7 +517,7 @@ fn main() {
             let mut rng = Rng::new(fv::seed_from_env() ^ 0xC08 ^ (fv::arg_u64("stream", 0) << 24));
             for i in 0..n {
                 let s = random_session(&mut rng, i, max_ops);
-                run_session(&s, &mut out, &cur_path);
+                run_session(&s, &mut out, &mut park);
             }
         }
         "gen" => {
@@ -511,7 +529,7 @@ fn main() {
                 let vts: Vec<bool> = if vt == "alternate" { vec![(i / 3) % 2 == 1] } else { vec![false, true] };
                 for base in bases {
                     for expr in vts.iter().cloned() {
-                        run_session(&gen_session(hist, base, expr), &mut out, &cur_path);
+                        run_session(&gen_session(hist, base, expr), &mut out, &mut park);
                     }
                 }
             }
@@ -522,17 +540,18 @@ fn main() {
             let mut cur: Vec<Value> = Vec::new();
             for e in evs {
                 if e["ev"] == "begin" && !cur.is_empty() {
-                    run_session(&cur, &mut out, &cur_path);
+                    run_session(&cur, &mut out, &mut park);
                     cur.clear();
                 }
                 cur.push(e);
             }
             if !cur.is_empty() {
-                run_session(&cur, &mut out, &cur_path);
+                run_session(&cur, &mut out, &mut park);
             }
         }
         other => panic!("unknown mode {}", other),
     }
     out.flush();
+    drop(park);
     let _ = std::fs::remove_file(&cur_path);
 }
